@@ -24,6 +24,9 @@ pub enum G {
     /// `**/dir/**`: a directory of that name at any depth — one of the names is `root`, the name of the directory
     /// the generated repository itself lives in (nothing above the repository root takes part in matching)
     Deep(u8),
+    /// `{p1,p2}`: an alternation of two exact paths and nothing else (no wildcard anywhere in the pattern)
+    #[serde(alias = "Brace")]
+    Alt(u16, u16),
 }
 
 const DEEP: &[&str] = &["root", "src", "b", "ign", "build", "s0"];
@@ -106,7 +109,21 @@ pub fn glob_text(g: &G, paths: &[String]) -> String {
                 paths[pick_idx(*i, paths.len())].clone()
             }
         }
+        G::Alt(i, j) => {
+            let (a, b) = alt_paths(*i, *j, paths);
+            format!("{{{a},{b}}}")
+        }
     }
+}
+
+/// The two alternatives of `G::Alt`: files of the tree whose paths hold none of the characters that mean
+/// something inside a brace group (a tree without such a pair gets two names that match nothing).
+fn alt_paths(i: u16, j: u16, paths: &[String]) -> (String, String) {
+    let plain: Vec<&String> = paths.iter().filter(|p| !p.contains(|c: char| ",{}[]*?\\!".contains(c))).collect();
+    if plain.is_empty() {
+        return ("nothing.py".into(), "nothing_else.py".into());
+    }
+    (plain[pick_idx(i, plain.len())].clone(), plain[pick_idx(j, plain.len())].clone())
 }
 
 /// Harness-side matcher for the four documented glob forms, against root-relative paths.
@@ -134,6 +151,10 @@ pub fn glob_match(g: &G, path: &str, paths: &[String]) -> T {
             T::from(comps[..comps.len() - 1].contains(&d))
         }
         G::Exact(_) => T::from(path == glob_text(g, paths)),
+        G::Alt(i, j) => {
+            let (a, b) = alt_paths(*i, *j, paths);
+            T::from(path == a || path == b)
+        }
     }
 }
 
@@ -463,7 +484,7 @@ pub fn check(c: &ScopeCase, probe: &Probe) -> Verdict {
 }
 
 pub fn case_strategy() -> BoxedStrategy<ScopeCase> {
-    let g = || prop_oneof![2 => (0u8..5).prop_map(G::Ext), 2 => (0u8..30).prop_map(G::Dir), 2 => (0u8..13).prop_map(G::Name), 2 => any::<u16>().prop_map(G::Exact), 1 => (0u8..6).prop_map(G::Deep)];
+    let g = || prop_oneof![2 => (0u8..5).prop_map(G::Ext), 2 => (0u8..30).prop_map(G::Dir), 2 => (0u8..13).prop_map(G::Name), 2 => any::<u16>().prop_map(G::Exact), 1 => (0u8..6).prop_map(G::Deep), 1 => (any::<u16>(), any::<u16>()).prop_map(|(i, j)| G::Alt(i, j))];
     (
         proptest::collection::vec((prop_oneof![2 => Just(0u8), 2 => Just(2u8), 1 => Just(3u8), 6 => 0u8..31], 0u8..13), 2..14),
         proptest::collection::vec(0u8..6, 0..4),
@@ -481,9 +502,9 @@ pub fn case_strategy() -> BoxedStrategy<ScopeCase> {
 }
 
 pub fn run(run: &mut Run) {
-    run.rule = "random: a tree of 2..13 files over 31 directories (incl. two that differ from an ignore pattern in letter case only: `Ign`, `a/IGN`; conventionally skipped names: `node_modules`, `target`, `vendor`, `build`, `dist`, `__pycache__`; a name with a comma, top-level `c`, `w`, `o/i` (git's mnemonic diff prefixes), `a`, `b`, `b/b`, `b/a/b`, a name with a space, a dotted directory, hidden directories, git-ignored directories, directories named like files: `lib.py`, `notes.md`, `a/x.py`, `y.rs`) x 13 file names (5 languages, names with spaces/dots, hidden, git-ignored, unknown suffix, two that differ from an ignore pattern in letter case only), a generated .gitignore (+ optional nested one, + optional `.git/info/exclude`, + optional user-wide ignore file under XDG_CONFIG_HOME), in a third of the cases 1..2 symbolic links to healthy files of the tree plus two symbolic links to a directory whose own names look like source files (`zz_dirlink.py`, `src/chart.js`), 0..3 positional and 0..3 --ignore globs of the documented forms in four argument orders / spellings (globs first, --ignore first, `--ignore=g` in front of the sub-command, interleaved) (`*.ext`, `dir/**`, `**/name`, exact path, `**/dir/**` — one of these names the directory the repository itself lives in), a real `git diff --cached -M` naming 0..3 of the files (each touched inside its block; some of them renamed, so that the `---` and `+++` paths differ — every second old name holds non-ASCII letters, which git prints C-quoted: `--- \"a/zold/1_se\\303\\261al_x.py\"`) or interactive mode, started from the root or any sub-directory. Every file holds one uniquely named violating block (in one case of eight, one in-scope file reached through the walk carries 1.3 MB of text behind it); files outside the reference scope are rewritten as tripwires (unclosed start tag), so examining one fails the run. Reference scope = ((not hidden and not ignored by `git check-ignore --no-index`) and matches a positional glob — everything when interactive without globs) or named in the diff, minus --ignore matches; `*.ext` on nested paths is unspecified. Compared with the key sets of `list` and of the diagnostics. Non-trivial = a top-level directory `b` together with a diff-named file outside every glob / hit by an ignore glob / under `b/`.".into();
+    run.rule = "random: a tree of 2..13 files over 31 directories (incl. two that differ from an ignore pattern in letter case only: `Ign`, `a/IGN`; conventionally skipped names: `node_modules`, `target`, `vendor`, `build`, `dist`, `__pycache__`; a name with a comma, top-level `c`, `w`, `o/i` (git's mnemonic diff prefixes), `a`, `b`, `b/b`, `b/a/b`, a name with a space, a dotted directory, hidden directories, git-ignored directories, directories named like files: `lib.py`, `notes.md`, `a/x.py`, `y.rs`) x 13 file names (5 languages, names with spaces/dots, hidden, git-ignored, unknown suffix, two that differ from an ignore pattern in letter case only), a generated .gitignore (+ optional nested one, + optional `.git/info/exclude`, + optional user-wide ignore file under XDG_CONFIG_HOME), in a third of the cases 1..2 symbolic links to healthy files of the tree plus two symbolic links to a directory whose own names look like source files (`zz_dirlink.py`, `src/chart.js`), 0..3 positional and 0..3 --ignore globs of the documented forms in four argument orders / spellings (globs first, --ignore first, `--ignore=g` in front of the sub-command, interleaved) (`*.ext`, `dir/**`, `**/name`, exact path, `**/dir/**` — one of these names the directory the repository itself lives in —, and `{path1,path2}`, an alternation of two exact paths with no wildcard anywhere in the pattern), a real `git diff --cached -M` naming 0..3 of the files (each touched inside its block; some of them renamed, so that the `---` and `+++` paths differ — every second old name holds non-ASCII letters, which git prints C-quoted: `--- \"a/zold/1_se\\303\\261al_x.py\"`) or interactive mode, started from the root or any sub-directory. Every file holds one uniquely named violating block (in one case of eight, one in-scope file reached through the walk carries 1.3 MB of text behind it); files outside the reference scope are rewritten as tripwires (unclosed start tag), so examining one fails the run. Reference scope = ((not hidden and not ignored by `git check-ignore --no-index`) and matches a positional glob — everything when interactive without globs) or named in the diff, minus --ignore matches; `*.ext` on nested paths is unspecified. Compared with the key sets of `list` and of the diagnostics. Non-trivial = a top-level directory `b` together with a diff-named file outside every glob / hit by an ignore glob / under `b/`.".into();
     run.assumptions = vec![
-        "git's own ignore matcher is the authority on .gitignore semantics; globs are matched by a harness-side matcher for the four documented forms only".into(),
+        "git's own ignore matcher is the authority on .gitignore semantics; globs are matched by a harness-side matcher for the stated forms only".into(),
         "default a/ b/ diff prefixes (no --no-prefix), paths free of characters git quotes".into(),
     ];
     run.shrink_iters = 300;
